@@ -17,7 +17,7 @@ from vlib import xh
 from vlib import zt
 from vlib.build import build
 from vlib.driver import Report
-from vlib.par import pmap
+from vlib.par import pmap, run_groups
 from vlib.session import run_case, Violation
 
 PID = "C01"
@@ -214,10 +214,7 @@ def run(tier, seed, only=None):
                   "program length": "1 (2 for structure-changing ops) from arbitrary audited pre-states"}
     rep.outside = ["linalg results are audited under C11/C13", "states larger than the bound; torch/jax blocks; non-finite data", "drop_missing_blocks (data-dependent, in-place only)"]
     groups = build_family(tier, seed)
-    for name, (cases, ex) in groups.items():
-        if only and only not in name:
-            continue
-        rep.add_cases(name, pmap(_run, cases), exhaustive=ex)
+    run_groups(rep, groups, _run, only)
     if not only or "xh" in only:
         res, herr = xh.run_all(os.path.join(env.VERIF, "harness", "h_c01.py"), timeout=150 if tier == "quick" else 400)
         rep.add_xh(res)
